@@ -65,6 +65,18 @@ class C15(Prop):
         for k in range(500 if tier == "quick" else 8000):
             y, z = rng.choice(alpha), rng.choice(alpha)
             yield {"stream": "integral", "f": rng.choice(FUNCS), "level": rng.choice(ic.DYADIC_LEVELS[:9]), "y": [str(y)], "z": [str(z)], "eta": "0"}
+        for k in range(120 if tier == "quick" else 1500):
+            # the Murphy diagram itself: several forecast columns, eta grids on data values
+            n = rng.randint(2, 8)
+            nm = rng.choice([1, 2, 3])
+            y = [rng.randint(-4, 8) / 2 for _ in range(n)]
+            cols = [[rng.randint(-4, 8) / 2 for _ in range(n)] for _ in range(nm)]
+            if len(set(y + [v for c in cols for v in c])) < 2:
+                continue
+            vals = sorted(set(y + cols[0]))
+            yield {"stream": "murphy", "y": y, "cols": cols, "f": rng.choice(FUNCS), "level": rng.choice([0.5, 0.25, 0.75]),
+                   "w": None if rng.random() < 0.5 else [rng.choice([1.0, 2.0, 0.5]) for _ in range(n)],
+                   "etas": rng.randint(2, 7) if rng.random() < 0.4 else sorted(set(rng.sample(vals, min(len(vals), 3)) + [rng.randint(-8, 16) / 4]))}
         for k in range(400 if tier == "quick" else 6000):
             n = rng.randint(1, 9)
             ys = [Fraction(rng.randint(-4, 4)) for _ in range(n)]
@@ -76,11 +88,20 @@ class C15(Prop):
             yield {"stream": "consistency", "f": f, "level": rng.choice(ic.DYADIC_LEVELS[:9]), "eta": str(eta),
                    "y": [str(v) for v in ys], "w": None if ws is None else [str(v) for v in ws]}
 
+    def _c19(self):
+        from .c19 import C19
+
+        if not hasattr(self, "_c19obj"):
+            self._c19obj = C19()
+        return self._c19obj
+
     def _lv(self, case):
         lv = case["level"]
         return float(lv) if lv in ("0", "1", "-1", "1.5") else ic.level_float(lv)
 
     def impl(self, case):
+        if case["stream"] == "murphy":
+            return self._c19().impl(case)
         ys = [float(Fraction(v)) for v in case["y"]]
         lv = self._lv(case)
         f = case["f"]
@@ -112,6 +133,8 @@ class C15(Prop):
         return sorted(p for p in pts if Fraction(float(p)) == p)
 
     def model_request(self, case):
+        if case["stream"] == "murphy":
+            return self._c19().model_request(case)
         if case["stream"] != "pairs":
             return None
         lv = case["level"]
@@ -120,6 +143,8 @@ class C15(Prop):
                 "y": enc_list(Fraction(v) for v in case["y"]), "z": enc_list(Fraction(v) for v in case["z"])}
 
     def compare(self, case, io, mo):
+        if case["stream"] == "murphy":
+            return self._c19().compare(case, io, mo)
         if ("err" in io) != ("err" in mo):
             return f"outcome differs: implementation {io.get('err', 'ok')} vs model {mo.get('err', 'ok')}"
         if "err" in io:
@@ -131,6 +156,8 @@ class C15(Prop):
 
     def oracle(self, case, io):
         f = case["f"]
+        if case["stream"] == "murphy":
+            return self._c19().oracle(case, io)
         if case["stream"] == "pairs":
             if "err" in io:
                 return None
@@ -182,11 +209,15 @@ class C15(Prop):
         return None
 
     def nontrivial(self, case, io):
+        if case["stream"] == "murphy":
+            return len(case["cols"]) > 1
         if case["stream"] == "integral":
             return case["y"] != case["z"]
         return case["eta"] in case["y"] or case["eta"] in case.get("z", [])
 
     def shrink(self, case):
+        if case["stream"] == "murphy":
+            return
         if case["stream"] == "pairs" and len(case["y"]) == len(case["z"]) and len(case["y"]) > 1:
             for i in range(len(case["y"])):
                 yield {**case, "y": case["y"][:i] + case["y"][i + 1:], "z": case["z"][:i] + case["z"][i + 1:]}
